@@ -57,6 +57,15 @@ def cases(seed, tier):
                             "d": rng.choice([2, 3, 4, 7]), "s": rng.choice([0.3, 0.4, 0.5]),
                             "seed": sub_seed(seed, "c09s", k)})
                 k += 1
+    # metamorphic relations of the backward pass that need no reference model: linearity in the cotangent (incl. tiny, exactly cancelling
+    # and zero cotangents) and the double-backward Jacobian-vector product against a central finite difference of the forward
+    for fname in funcs.FUNCTIONALS:
+        for rep in ("pure", "em_flat", "nn_nested", "pure_nontensor"):
+            for r in range(1 if tier == "quick" else 4):
+                rng = random.Random(sub_seed(seed, "c09mm", fname, rep, r))
+                out.append({"group": "meta", "functional": fname, "rep": rep, "derived": rep == "em_flat" and r % 2 == 1, "rg": [1, 1, 1],
+                            "d": rng.choice([2, 3, 7]), "s": 0.4, "seed": sub_seed(seed, "c09s", k)})
+                k += 1
     # histories on ONE object: the functional is called, the object's containers are rebound to freshly derived tensors (what every
     # training-loop iteration does), and the functional is called again - the second call must still see the object's current tensors
     for fname in funcs.FUNCTIONALS:
@@ -251,7 +260,106 @@ def run_rebind(desc):
     return obs.result()
 
 
+def run_meta(desc):
+    obs = Obs(desc)
+    fname, rep, d, s = desc["functional"], desc["rep"], desc["d"], desc["s"]
+    dtype = torch.float64
+    tg = torch.Generator().manual_seed(desc["seed"])
+    F = funcs.FUNCTIONALS[fname]
+    lv0 = funcs.make_leaves(d, tg, dtype)
+    mech = "%s:%s" % (fname, rep)
+
+    # the implicit backward of the optimisers solves a linear system: an absolute tolerance far below the tiny cotangent is requested
+    # (with the default atol=1e-8 a cotangent of 1e-10 is legitimately answered by zero)
+    extra = {"bck_options": {"rtol": 1e-10, "atol": 1e-30}} if fname.split(":")[0] in ("rootfinder", "equilibrium", "minimize") else None
+
+    def forward(lv):
+        built = funcs.build(rep, F.core, F.nlead, funcs.effective(lv, desc["derived"]), s)
+        out = F.run(built, d, dtype, extra)
+        return list(out) if isinstance(out, (tuple, list)) else [out]
+
+    def grad_for(cots):
+        lv = funcs.clone_leaves(lv0)
+        outs = forward(lv)
+        L = sum((o * c).sum() for o, c in zip(outs, cots))
+        leaves = [lv[k] for k in funcs.LEAF_NAMES]
+        if not (isinstance(L, torch.Tensor) and L.requires_grad):
+            return [torch.zeros_like(l) for l in leaves]
+        g = torch.autograd.grad(L, leaves, allow_unused=True)
+        return [torch.zeros_like(l) if gi is None else gi.detach() for gi, l in zip(g, leaves)]
+    try:
+        with WarnLog():
+            outs0 = [o.detach() for o in forward(funcs.clone_leaves(lv0))]
+            C1 = [torch.randn(o.shape, generator=tg, dtype=dtype) for o in outs0]
+            C2 = [torch.randn(o.shape, generator=tg, dtype=dtype) for o in outs0]
+            g1, g2 = grad_for(C1), grad_for(C2)
+            sc = max(1.0, max(float(x.abs().max()) for x in g1 + g2))
+            tol = 1e-6 if F.iterative else 1e-9
+            # (a) linear combination
+            g12 = grad_for([0.7 * a - 1.3 * b for a, b in zip(C1, C2)])
+            err = max(float((x - (0.7 * a - 1.3 * b)).abs().max()) for x, a, b in zip(g12, g1, g2))
+            obs.check(err <= tol * sc, "cot_linear:" + mech, "backward is not linear in the cotangent: g(0.7 C1 - 1.3 C2) differs from 0.7 g(C1) - 1.3 g(C2) by %.3e" % err)
+            # (b) tiny cotangent (scale 1e-10): the gradient must scale with it (relative comparison)
+            gt = grad_for([1e-10 * a for a in C1])
+            err = max(float((x * 1e10 - a).abs().max()) for x, a in zip(gt, g1))
+            obs.check(err <= max(tol, 1e-5) * sc, "cot_tiny:" + mech, "g(1e-10 C) * 1e10 differs from g(C) by %.3e (scale %.2e)" % (err, sc))
+            # (c) a cotangent whose entries cancel exactly (sum == 0) = difference of two one-sided cotangents
+            Ca = [torch.zeros_like(o) for o in outs0]
+            Cb = [torch.zeros_like(o) for o in outs0]
+            flat = outs0[0].reshape(-1)
+            if flat.numel() >= 2:
+                # the last two entries (for a trajectory: two components at the SAME, final time), so the cancellation is local
+                Ca[0].reshape(-1)[flat.numel() - 1] = 1.0
+                Cb[0].reshape(-1)[flat.numel() - 2] = 1.0
+                ga, gb = grad_for(Ca), grad_for(Cb)
+                gc = grad_for([a - b for a, b in zip(Ca, Cb)])
+                err = max(float((x - (a - b)).abs().max()) for x, a, b in zip(gc, ga, gb))
+                obs.check(err <= tol * max(1.0, max(float(x.abs().max()) for x in ga + gb)), "cot_cancel:" + mech,
+                          "g(e_last - e_before_last) differs from g(e_last) - g(e_before_last) by %.3e (cotangent whose entries cancel exactly)" % err)
+            # (d) zero cotangent -> zero gradient
+            gz = grad_for([torch.zeros_like(o) for o in outs0])
+            obs.check(all(float(x.abs().max()) == 0.0 for x in gz), "cot_zero:" + mech, "a zero cotangent gives a non-zero gradient")
+            # (e) Jacobian-vector product by the double-backward trick (first-level cotangent exactly zero) vs central finite difference
+            lv = funcs.clone_leaves(lv0)
+            outs = forward(lv)
+            leaves = [lv[k] for k in funcs.LEAF_NAMES]
+            vs = [torch.zeros_like(o).requires_grad_() for o in outs]
+            U = [torch.randn(l.shape, generator=tg, dtype=dtype) for l in leaves]
+            g = torch.autograd.grad(outs, leaves, grad_outputs=vs, create_graph=True, allow_unused=True)
+            have = [(gi, u) for gi, u in zip(g, U) if gi is not None and gi.requires_grad]
+            jvp = torch.autograd.grad([gi for gi, _ in have], vs, grad_outputs=[u for _, u in have], allow_unused=True) if have else [None] * len(vs)
+            jvp = [torch.zeros_like(o) if j is None else j.detach() for j, o in zip(jvp, outs)]
+            eps = 1e-5
+            lp = {k: torch.nn.Parameter(lv0[k].detach() + eps * u) for k, u in zip(funcs.LEAF_NAMES, U)}
+            lm = {k: torch.nn.Parameter(lv0[k].detach() - eps * u) for k, u in zip(funcs.LEAF_NAMES, U)}
+            with torch.no_grad():
+                yp = [o.detach() for o in forward(lp)]
+                ym = [o.detach() for o in forward(lm)]
+            fd = [(a - b) / (2 * eps) for a, b in zip(yp, ym)]
+            jsc = max(1.0, max(float(x.abs().max()) for x in fd))
+            err = max(float((a - b).abs().max()) for a, b in zip(jvp, fd))
+            # solve_ivp differentiates the continuous problem with the (backward) integrator: its gradient equals the derivative of the
+            # discrete forward only up to the discretisation error of the method on this coarse grid
+            # (and the finite difference of a forward that is only converged to its default tolerance 1e-6 is not usable: skipped)
+            jtol = {"solve_ivp:euler": None, "solve_ivp:rk4": 5e-3, "solve_ivp:rk38": 5e-3, "solve_ivp:rk23": 1e-4, "solve_ivp:rk45": 1e-5,
+                    "rootfinder:default": None, "minimize:gd": 2e-3}.get(fname, 2e-4 if F.iterative else 1e-6)
+            obs.check(jtol is None or err <= jtol * jsc, "jvp_trick:" + mech,
+                      "Jacobian-vector product by double backward (zero first-level cotangent) differs from the central finite difference of the forward by %.3e (scale %.2e)" % (err, jsc))
+    except Exception as e:
+        from vf.common import last_repo_frame
+        if last_repo_frame(e.__traceback__) is None and not isinstance(e, RuntimeError):
+            raise
+        obs.exc_violation("meta:" + mech, e)
+        obs.nontrivial = True
+        return obs.result()
+    obs.count("metamorphic_relations_checked", 5)
+    obs.nontrivial = True
+    return obs.result()
+
+
 def run_case(desc):
+    if desc.get("group") == "meta":
+        return run_meta(desc)
     if desc.get("group") == "rebind":
         return run_rebind(desc)
     obs = Obs(desc)
